@@ -415,6 +415,14 @@ class GcodeHandlers(object):
         """G91 - Set relative positioning mode."""
         self.state.setAbsoluteMode(False)
 
+    def _handle_M82(self, cmd, gcode, subcode=None):  # pylint: disable=unused-argument,invalid-name
+        """M82 - Set the extruder to absolute mode."""
+        self.state.position.setExtruderAbsoluteMode(True)
+
+    def _handle_M83(self, cmd, gcode, subcode=None):  # pylint: disable=unused-argument,invalid-name
+        """M83 - Set the extruder to relative mode."""
+        self.state.position.setExtruderAbsoluteMode(False)
+
     def _handle_G92(self, cmd, gcode, subcode=None):  # pylint: disable=unused-argument,invalid-name
         """
         G92 - Set current position.
